@@ -584,7 +584,7 @@ MODELLED = {
     'standard_normal', 'uniform', 'default_rng', 'power', 'sigma_clip', 'deepcopy', 'shape',
     'iscomplexobj', 'getattr', 'Time', 'unix', 'mjd', 'str', 'strip', 'encode', 'decode',
     'format', 'fstr', 'wofz', 'modf', 'unique', 'vectorize', 'dict', 'list', 'zip', 'sorted',
-    'glob', 'open', 'read', 'keys', 'items', 'get', 'T', 'flatten', 'nan_to_num', 'bytearray',
+    'glob', 'open', 'read', 'keys', 'items', 'get', 'T', 'flatten', 'nan_to_num', 'bytearray', 'Time.mjd', 'Time.unix',
 }
 
 PACKAGE_HEADS = set()   # short names of package functions (opaque but known heads)
@@ -673,6 +673,16 @@ def mk_call(fn, args=(), kwargs=()):
         ca, cb = a.const(), b.const()
         if ca is not None and cb is not None and cb != 0:
             return Term.num(ca % cb)
+    if fn in ('Time.unix', 'Time.mjd') and len(args) == 2 and not kwargs:
+        # astropy Time(Time(y, format=a).b, format=b).a == y  (inverse pair unix <-> mjd)
+        me = fn.split('.')[1]
+        ia = args[0].single_atom()
+        fa = args[1].single_atom()
+        if ia is not None and ia.kind == 'call' and ia.args[0] in ('Time.unix', 'Time.mjd') and fa is not None and fa.kind == 'str':
+            other = ia.args[0].split('.')[1]
+            oa = ia.args[1][1].single_atom() if len(ia.args[1]) == 2 else None
+            if other == fa.args[0] and oa is not None and oa.kind == 'str' and oa.args[0] == me:
+                return ia.args[1][0]
     if fn == 'array' and len(args) == 1 and not kwargs:
         xa = args[0].single_atom()
         if xa is not None and (xa.kind == 'seq' or (xa.kind == 'call' and xa.args[0] in (
